@@ -760,7 +760,9 @@ impl Rasn {
                                 }
                                 let obj_set_name = match t.object_set.values.first() {
                                     Some(ObjectSetValue::Reference(s)) => self.to_rust_title_case(s),
-                                    _ => todo!()
+                                    // Without a named object set there is no enum of open type
+                                    // alternatives that a decode helper could return
+                                    _ => return,
                                 };
                                 let field_enum_name = format_ident!("{obj_set_name}_{field_name}");
                                 let input = if m.optionality == Optionality::Required {
